@@ -1863,11 +1863,10 @@ class SemanticAnalyzer(
             tv = self.analyze_type_param(p, context)
             if tv is None:
                 return None
-            tvs.append((p.name, tv))
-
             if self.is_defined_type_param(p.name):
                 self.fail(f'"{p.name}" already defined as a type parameter', context)
             else:
+                tvs.append((p.name, tv))
                 assert self.add_symbol(
                     p.name, tv, context, no_progress=True, type_param=True
                 ), "Type parameter should not be discarded"
